@@ -272,6 +272,12 @@ def run(prop, tier, seed, replay=None):
             if res.get("hang") and "piece.(*Pieces)" not in st:
                 raise Internal("scenario %s: harness hang outside the piece store:\n%s" % (sid, st[-3000:]))
             kind = "hang" if res.get("hang") else crash_key(st)
+            starved = any(x in st for x in ("cannot allocate memory", "out of memory")) and "piece.(*Pieces)" not in st and "storrent/alloc" not in st
+            uses_limit = sc.get("far") or any((s_.get("s", {}).get("op", {}).get(s_.get("a", {}).get("t", ""), {}) or {}).get("sh") == "nomem" for s_ in sc.get("steps", []))
+            if res.get("crash") and starved and uses_limit:
+                # the Go runtime itself was refused memory while the scenario had the address-space limit lowered (or held
+                # 4 GiB of mappings): the driver died, the store did nothing wrong
+                raise Internal("scenario %s: the runtime ran out of address space under the scenario's own limit:\n%s" % (sid, st[:600]))
             props = props_of_crash(st) if res.get("crash") else {"C03"}
             if prop in props:
                 v.violation(kind, "the process %s while replaying scenario %s: %s" % (
